@@ -2485,7 +2485,7 @@ def _one_info_ExceptHandler_name(self: fst.FST, static: onestatic, idx: int | No
     else:
         lines = self.root._lines
         ln, col = next_find(lines, ln, col, end_ln, end_col, 'as')  # skip the 'as'
-        ln, col = next_find(lines, ln, col + 2, end_ln, end_col, name)  # must be there
+        ln, col, name = next_find_re(lines, ln, col + 2, end_ln, end_col, re_identifier)  # must be there, source identifier because it may differ from the normalized one in the AST
         loc_prim = fstloc(ln, col, ln, col + len(name))
 
     return oneinfo(' as ', loc_insdel, loc_prim)
@@ -2664,7 +2664,7 @@ def _one_info_arguments_kwarg(self: fst.FST, static: onestatic, idx: int | None,
     return oneinfo(', **', fstloc(ln, col, end_ln, end_col))
 
 def _one_info_arg_annotation(self: fst.FST, static: onestatic, idx: int | None, field: str) -> oneinfo:
-    return oneinfo(': ', fstloc((loc := self.loc).ln, loc.col + len(self.a.arg), self.end_ln, self.end_col))
+    return oneinfo(': ', fstloc((loc := self.loc).ln, re_identifier.match(self.root._lines[loc.ln], loc.col).end(), self.end_ln, self.end_col))  # source identifier because it may differ in length from the normalized one in the AST
 
 def _one_info_keyword_arg(self: fst.FST, static: onestatic, idx: int | None, field: str) -> oneinfo:
     ast = self.a
@@ -2677,13 +2677,17 @@ def _one_info_keyword_arg(self: fst.FST, static: onestatic, idx: int | None, fie
 def _one_info_alias_asname(self: fst.FST, static: onestatic, idx: int | None, field: str) -> oneinfo:
     ast = self.a
     ln, col, end_ln, end_col = self.loc
-    loc_insdel = fstloc(ln, col + len(ast.name), end_ln, end_col)
+    lines = self.root._lines
+    name_end_col = re_identifier_alias.match(lines[ln], col).end()  # source identifiers because they may differ in length from the normalized ones in the AST
+    loc_insdel = fstloc(ln, name_end_col, end_ln, end_col)
 
-    if (asname := ast.asname) is None:
+    if ast.asname is None:
         loc_prim = None
 
     else:
-        loc_prim = fstloc(end_ln, end_col - len(asname), end_ln, end_col)  # asname is the last thing in an alias, searching for 'as' from the start can find it inside the name ('import asab as a')
+        as_ln, as_col = next_find(lines, ln, name_end_col, end_ln, end_col, 'as')  # must be there, search from end of name because 'as' can be inside the name ('import asab as a')
+        as_ln, as_col, _ = next_find_re(lines, as_ln, as_col + 2, end_ln, end_col, re_identifier, lcont=None)  # must be there
+        loc_prim = fstloc(as_ln, as_col, end_ln, end_col)
 
     return oneinfo(' as ', loc_insdel, loc_prim)
 
@@ -2785,7 +2789,7 @@ def _one_info_MatchAs_name(self: fst.FST, static: onestatic, idx: int | None, fi
 
 def _one_info_TypeVar_bound(self: fst.FST, static: onestatic, idx: int | None, field: str) -> oneinfo:
     ln = self.ln
-    col = self.col + len(self.a.name)
+    col = re_identifier.match(self.root._lines[ln], self.col).end()  # source identifier because it may differ in length from the normalized one in the AST
 
     if bound := self.a.bound:
         _, _, end_ln, end_col = bound.f.pars()
@@ -2800,7 +2804,7 @@ def _one_info_TypeVar_default_value(self: fst.FST, static: onestatic, idx: int |
         _, _, ln, col = bound.f.pars()
     else:
         ln = self.ln
-        col = self.col + len(self.a.name)
+        col = re_identifier.match(self.root._lines[ln], self.col).end()
 
     return oneinfo(' = ', fstloc(ln, col, self.end_ln, self.end_col))
 
